@@ -9,7 +9,7 @@ import hashlib
 import itertools
 
 from mc import env, stepspace
-from mc.diff import run_ref, judge
+from mc.diff import run_ref, judge, compare
 from mc.run import Block
 from ref import refed
 from ref.optable import op, push
@@ -341,6 +341,57 @@ def later_script_case(ctx, case):
                           f'{e.sigext_calls} signature-related instructions')
 
 
+def limit_probes():
+    """probes that need a known amount of each limit: d nested EVALs, a loop of i iterations, an item of s bytes"""
+    out = []
+    for d in (1, 2, 3):
+        body = P(b'\xd0')
+        for _ in range(d):
+            body = P(body) + op('EVAL')
+        out.append(('eval depth %d' % d, body))
+    for d in (1, 2):
+        # d nested function calls
+        body = P(b'\xd1')
+        for lvl in range(d):
+            h = bytes([0x60 + lvl])
+            body = op('DEF') + h + blk(body) + op('CALL') + h
+        out.append(('call depth %d' % d, body))
+    for i in (1, 2, 3):
+        # loop with exactly i iterations (counter items on the stack)
+        out.append(('loop %d iterations' % i, op('FALSE') + op('TRUE') * i + op('LOOP') + blk(op('POP0')) + op('POP0')))
+    for sz in (4, 5, 9):
+        out.append(('item of %d bytes' % sz, P(b'\x07' * sz) + op('POP0')))
+    return out
+
+
+LIMIT_TRIPLES = [(1024, 60000, cl) for cl in (1, 2, 3, 4, 5)] + [(1024, 4, 128), (1024, 8, 128), (8, 60000, 128), (5, 60000, 128)]
+
+
+def limits_case(ctx, case):
+    """the limits given to the run bind every nested body exactly as they bind the top level: each probe needs a known
+    amount of call depth / loop iterations / item size, each context adds a known amount; verdict from the reference"""
+    ctxkinds, pi = case
+    seed = ctx.seed
+    name, probe = limit_probes()[pi]
+    script = build(ctxkinds, probe, seed)
+    n = 0
+    for limits in LIMIT_TRIPLES:
+        n += 1
+        ctx.state(('limits', ctxkinds, pi, limits))
+        r = compare(script, limits=limits)
+        ctx.ran(2 if r.verdict != 'unspec' else 1)
+        ctx.trans(len(ctxkinds) + 1)
+        if r.verdict == 'unspec':
+            ctx.unspec(r.why)
+            continue
+        ctx.outcome('limits:' + r.verdict + ':' + r.why)
+        if r.verdict == 'viol':
+            ctx.violation({'config': 'limits', 'innermost': ctxkinds[-1] if ctxkinds else 'top', 'why': r.why,
+                           'probe': name.split(' ')[0]},
+                          f'{name} in context {ctxkinds} limits {limits} script {script.hex()[:300]}: {r.detail[:400]}')
+    ctx.evaluations += n - 1
+
+
 def blocks(tier, seed):
     q = tier == 'quick'
     depth = 2 if q else 4
@@ -350,7 +401,11 @@ def blocks(tier, seed):
     cfgs = configurations(seed)
     later_cfg = [i for i, c in enumerate(cfgs) if c[3] is not None or c[0].startswith('contract') or c[0].startswith('all flags on')]
     later = [(ci, c, pos) for c in contexts(1 if q else 2) for ci in later_cfg for pos in (0, 1, 2)]
-    return [Block('contexts_x_configurations', cases, case_fn,
+    lcases = [(c, pi) for c in contexts(2 if q else 3) for pi in range(len(limit_probes()))]
+    return [Block('limits_in_contexts', lcases, limits_case,
+                  'call-depth / loop-count / item-size probes x every context of depth <= %d x %d limit triples' % (2 if q else 3, len(LIMIT_TRIPLES)),
+                  nshards=128),
+            Block('contexts_x_configurations', cases, case_fn,
                   'every nesting context of depth <= %d over %d kinds (%d contexts) x %d (configuration, probe) pairs'
                   % (depth, len(KINDS), len(cs), ncfg), nshards=128),
             Block('flag_instruction_persistence',
